@@ -1,5 +1,5 @@
 (** Model of sharded/shardIDProvider.go (C19). *)
-From Coq Require Import List NArith PeanoNat Lia Bool ZifyN ZifyNat.
+From Coq Require Import List NArith ZArith PeanoNat Lia Bool ZifyN ZifyNat.
 From Verif Require Import Base.BStr.
 Import ListNotations.
 Open Scope N_scope.
@@ -25,3 +25,6 @@ Definition compute_id (n : N) (key : bytes) : N :=
 (** big-endian encoding of [i] on [k] bytes *)
 Fixpoint encode (k : nat) (i : N) : bytes :=
   match k with O => [] | S k' => encode k' (i / 256) ++ [i mod 256] end.
+
+(** NewShardIDProvider(numOfShards int32): `if numOfShards < minNumOfShards { return nil, ErrInvalidNumberOfShards }` *)
+Definition provider_accepts (n : Z) : bool := negb (n <? 2)%Z.
